@@ -499,6 +499,10 @@ func (c *c15) callMakeJoin(in gmsl.HandleMakeJoinInput, q *querier, tb *template
 	return resp, err
 }
 
+func failingDirectory(roomID spec.RoomID, sender spec.SenderID) (*spec.UserID, error) {
+	return nil, errors.New("directory: lookup failed")
+}
+
 func errText(err error) string {
 	if err == nil {
 		return "<nil>"
@@ -579,11 +583,25 @@ func (c *c15) opMakeJoin() {
 	r.Logf("op make_join %s -> %s", c.ju.id, rm.R().Name)
 	kinds := []string{"versions_lack_room_version", "origin_mismatch", "user_of_other_server", "server_not_in_room", "unknown_room",
 		"querier_joinrules_error", "querier_joinrules_lie_restricted", "querier_invite_error", "querier_invite_lie", "querier_pl_missing", "querier_pl_error", "querier_create_missing", "querier_info_error", "querier_info_nil",
-		"template_wrong_type", "template_nil_event", "template_nil_state", "template_error", "template_state_incomplete"}
+		"template_wrong_type", "template_nil_event", "template_nil_state", "template_error", "template_state_incomplete", "directory_error"}
 	nf := t.Weighted([]int{4, 4, 2, 1})
 	for i := 0; i < nf; i++ {
-		k := kinds[t.Weighted([]int{5, 4, 2, 3, 2, 1, 1, 1, 1, 1, 1, 1, 1, 1, 1, 1, 1, 1, 2})]
+		k := kinds[t.Weighted([]int{5, 4, 2, 3, 2, 1, 1, 1, 1, 1, 1, 1, 1, 1, 1, 1, 1, 1, 2, 2})]
 		switch {
+		case k == "directory_error":
+			// the user directory fails: whether the template passes the auth
+			// rules cannot be established, which is not the same as passing
+			in.UserIDQuerier = failingDirectory
+			if t.Chance(700) {
+				// ... for the requesting user only
+				who := string(in.SenderID)
+				in.UserIDQuerier = func(roomID spec.RoomID, sender spec.SenderID) (*spec.UserID, error) {
+					if string(sender) == who {
+						return nil, errors.New("directory: lookup failed")
+					}
+					return uidFor(roomID, sender)
+				}
+			}
 		case k == "versions_lack_room_version":
 			var vs []gmsl.RoomVersion
 			if !t.Chance(200) {
@@ -634,8 +652,20 @@ func (c *c15) opMakeLeave() {
 	r.Logf("op make_leave %s -> %s", c.ju.id, rm.R().Name)
 	nf := t.Weighted([]int{4, 4, 2})
 	for i := 0; i < nf; i++ {
-		k := []string{"origin_mismatch", "server_not_in_room", "template_wrong_type", "template_nil_event", "template_nil_state", "template_error", "user_of_other_server"}[t.Weighted([]int{4, 3, 1, 1, 1, 1, 2})]
+		k := []string{"origin_mismatch", "server_not_in_room", "template_wrong_type", "template_nil_event", "template_nil_state", "template_error", "user_of_other_server", "directory_error"}[t.Weighted([]int{4, 3, 1, 1, 1, 1, 2, 2})]
 		switch {
+		case k == "directory_error":
+			in.UserIDQuerier = failingDirectory
+			if t.Chance(700) {
+				// ... for the requesting user only
+				who := string(in.SenderID)
+				in.UserIDQuerier = func(roomID spec.RoomID, sender spec.SenderID) (*spec.UserID, error) {
+					if string(sender) == who {
+						return nil, errors.New("directory: lookup failed")
+					}
+					return uidFor(roomID, sender)
+				}
+			}
 		case k == "origin_mismatch":
 			in.RequestOrigin = c.mismatchedOrigin()
 		case k == "server_not_in_room":
